@@ -139,7 +139,7 @@ class History:
         bs.DefaultBlockStore.instance = self.store
         import skepticoin.networking.remote_peer as rp
         import skepticoin.networking.disk_interface as di
-        assert rp.DefaultBlockStore is bs.DefaultBlockStore and di.DefaultBlockStore is bs.DefaultBlockStore
+        assert getattr(rp, "DefaultBlockStore", bs.DefaultBlockStore) is bs.DefaultBlockStore and di.DefaultBlockStore is bs.DefaultBlockStore
         # the node's store starts with what the node knows
         try:
             self.store.write_blocks_to_disk([world.real[b] for b in world.chain.order[1:]])
@@ -239,6 +239,9 @@ class History:
             act_before = self.active_raws()
         sender = self.rng.choice(act_before)
         self.log.append({"class": cls, "block": rblk.enc().hex(), "known": known})
+        if not hasattr(self, "seen"):
+            self.seen = {}
+        self.seen[bid] = (rblk, cls)
         w = {"chain": gen.blocks_hex(world, world.chain.order[1:]), "deliveries": list(self.log), "now": now}
         sender.push(self.wire.block(real))
         self.net.settle(node, fragment=self.rng.random() < 0.5)
@@ -308,6 +311,29 @@ class History:
                     mon.v("non-head-block-relayed", "accepted block that did not become head was relayed", w)
             world.cs = world.cs.add_block_no_validation(real)
             world.accept(rblk, real, cs=world.cs)
+            # a node may keep blocks that arrived before their parent and connect them now.  Whatever it connected must be a
+            # block that was delivered, and must break no rule
+            unknown = sorted((b for b in after_cs.block_by_hash if b not in world.chain.blocks),
+                             key=lambda b: after_cs.block_by_hash[b].height)
+            for b in unknown:
+                rb2, cls2 = self.seen.get(b, (None, None))
+                if rb2 is None or rb2.prev not in world.chain.blocks:
+                    mon.v("node-holds-a-block-it-was-never-given", "after the delivery the chain state contains a block (h=%d) that no "
+                          "peer delivered" % after_cs.block_by_hash[b].height, w)
+                    self.diverged = True
+                    return
+                codes2 = ref.block_codes(world.chain, rb2, now)
+                if codes2:
+                    mon.v("rejected-block-in-chain-state:" + "+".join(sorted(codes2)), "class %s: a block that breaks %s, delivered earlier "
+                          "(before its parent), is part of the node's chain state now that the parent has arrived" % (cls2, sorted(codes2)), w)
+                    self.diverged = True
+                    return
+                real2 = bridge.rblock_to_real(rb2)
+                world.cs = world.cs.add_block_no_validation(real2)
+                world.accept(rb2, real2, cs=world.cs)
+                c["earlier_orphans_connected_by_the_node"] = c.get("earlier_orphans_connected_by_the_node", 0) + 1
+            if unknown:
+                return
             # pool: exactly the previously pooled transactions still valid at the new head
             c["pool_snapshots_compared"] += 1
             led = world.ledger(after_cs.current_chain_hash)
@@ -470,7 +496,8 @@ class History:
         if head not in world.chain.blocks or len(self.active_raws()) < 2:
             return
         story = rng.choice(["child-before-parent-answer", "unrequested-while-round-open", "announced-then-unrequested",
-                            "late-answer-after-child", "answers-lower-block-refusal", "same-header-other-body"])
+                            "late-answer-after-child", "answers-lower-block-refusal", "same-header-other-body",
+                            "altered-copy-while-holding-answers"])
         c["download_route_stories"] = c.get("download_route_stories", 0) + 1
         c["story:" + story] = c.get("story:" + story, 0) + 1
         ms = self.wire.ms
@@ -610,6 +637,51 @@ class History:
                         world.accept(rb_, real_, cs=world.cs)
                     before_cs = cm.coinstate
                     rows_before = self.rows()
+            elif story == "altered-copy-while-holding-answers":
+                us, pid = [], head
+                for _k in range(rng.choice([1, 3])):
+                    u = valid_on(tmp, pid)
+                    us.append(u)
+                    pid = u[0].id()
+                v_rb, v_real = valid_on(tmp, pid)
+                w_rb, w_real = valid_on(world.fork(), head, dt=5)
+                raw_blk = v_real.serialize()
+                hl = len(v_rb.header_enc())
+                altered = None
+                bits = list(range((hl - 96) * 8, hl * 8))
+                rng.shuffle(bits)
+                for bit in bits:          # one bit of the proof-of-work evidence altered, the id still below the target
+                    m = bytearray(raw_blk)
+                    m[bit // 8] ^= 0x80 >> (bit % 8)
+                    if ref.sha256d(bytes(m[:hl])) < v_rb.target:
+                        altered = bytes(m)
+                        break
+                if altered is None:
+                    return
+                alt_id = ref.sha256d(altered[:hl])
+                self.net.clock.t = world.now = max(world.now, v_rb.ts + 10, w_rb.ts + 10)
+                a, b = rng.sample(self.active_raws(), 2)
+                for k, (rb_, real_) in enumerate(us):
+                    a.push(self.wire.block(real_, in_response_to=4200 + k))
+                self.net.settle(node)
+                fr = self.wire.block(v_real)
+                b.push(fr[:len(fr) - len(raw_blk)] + altered)
+                self.net.settle(node)
+                if alt_id in cm.coinstate.block_by_hash:
+                    mon.v("rejected-block-in-chain-state:evidence", "an altered copy (one evidence bit) of a valid block, relayed while the "
+                          "node holds download answers it has not validated, is part of the chain state", w)
+                b.push(self.wire.block(w_real))
+                self.net.settle(node)
+                if self.rows().get(alt_id, 0) or any(x.hash() == alt_id for x in self.store.write_buffer):
+                    mon.v("rejected-block-in-store", "an altered copy (one evidence bit) of a valid block was refused while the node held "
+                          "unvalidated download answers; after the next valid block it has a row in the chain table / sits in the write "
+                          "buffer", w)
+                    self.diverged = True
+                elif w_rb.id() in cm.coinstate.block_by_hash and cm.coinstate.current_chain_hash == w_rb.id():
+                    world.cs = world.cs.add_block_no_validation(w_real)
+                    world.accept(w_rb, w_real, cs=world.cs)
+                    before_cs = cm.coinstate
+                    rows_before = self.rows()
             else:
                 h_rb, h_real = valid_on(tmp, head)
                 bad_built = cstream.v_reward_plus_one(tmp, h_rb.id(), rng)
@@ -643,7 +715,7 @@ class History:
         finally:
             self.back_to(before_cs, rows_before)
 
-    def run(self, ndeliv, classes):
+    def run(self, ndeliv, classes, story_share=None):
         rng, world, c = self.rng, self.world, self.mon.c
         names = sorted(classes)
         valid_names = sorted(VALID)
@@ -661,7 +733,7 @@ class History:
                 if getattr(self, "diverged", False):
                     break
                 continue
-            if 0.53 <= r < 0.60:
+            if 0.53 <= r < 0.60 or (story_share is not None and rng.random() < story_share):
                 self.download_route_story(classes)
                 if getattr(self, "diverged", False):
                     break
@@ -727,6 +799,18 @@ class History:
         self.ro.close()
         self.store.close()
         os.remove(self.path)
+
+
+def route_histories(rng, nhist, ndeliv, classes, tag, story_share=0.6):
+    """for the checks of other properties: histories of a real node (relay and download route, with the real store) in which
+    most events are download-route stories built from THEIR classes of rule-breaking blocks; returns the monitor"""
+    mon = Monitor()
+    cl = dict(VALID)
+    cl.update(classes)
+    for j in range(nhist):
+        h = History(mon, rng, "%s-%d" % (tag, j))
+        h.run(ndeliv, cl, story_share=story_share)
+    return mon
 
 
 SMALL = ["valid-on-head", "valid-sibling-of-head", "valid-on-best-losing-tip", "invalid-in-state", "cannot-be-applied",
